@@ -161,6 +161,32 @@ def f16_wire_ok(t: pydsdl.FloatType, x32: typing.Any, h16: typing.Any) -> typing
     return z3.And(sgn_ok, z3.If(isnan, z3.UGT(mag, 0x7C00), z3.If(isinf, mag == 0x7C00, fin)))
 
 
+def pyfloat_wire_ok(t: pydsdl.FloatType, d64: typing.Any, field: typing.Any) -> typing.Any:
+    """Python target: a float field holds an IEEE binary64; the wire value must be a *faithful* conversion to the declared format:
+    exactly representable values convert exactly, other finite values to one of the two neighbours (the neighbour beyond the largest
+    finite value being infinity for truncated fields, never for saturated ones: those clamp), infinities and NaN-ness are preserved,
+    the sign (also of zero) is preserved.  float64 fields carry the bit pattern."""
+    n = t.bit_length
+    srt = {16: z3.Float16(), 32: z3.Float32(), 64: z3.Float64()}[n]
+    F64 = z3.Float64()
+    y = z3.fpBVToFP(field, srt)
+    if n == 64:
+        return z3.If(z3.fpIsNaN(d64), z3.fpIsNaN(y), y == d64)
+    mag = z3.Extract(n - 2, 0, field)
+    sgn_ok = z3.Extract(n - 1, n - 1, field) == z3.Extract(63, 63, z3.fpToIEEEBV(d64))
+    r = z3.fpFPToFP(z3.RTZ(), d64, srt)                       # towards zero: never overflows to infinity
+    rmag = z3.Extract(n - 2, 0, z3.fpToIEEEBV(r))
+    exact = z3.fpFPToFP(z3.RNE(), r, F64) == d64
+    maxmag = z3.BitVecVal((((1 << (n - 1)) - 1) ^ ((1 << {16: 10, 32: 23}[n]) - 1)) - 1, n - 1)       # largest finite magnitude pattern
+    infmag = maxmag + 1
+    beyond = z3.fpGT(z3.fpAbs(d64), z3.fpFPToFP(z3.RNE(), z3.fpBVToFP(z3.Concat(z3.BitVecVal(0, 1), maxmag), srt), F64))
+    if t.cast_mode == SAT:
+        fin = z3.If(beyond, mag == maxmag, z3.If(exact, mag == rmag, z3.Or(mag == rmag, z3.And(mag == rmag + 1, rmag != maxmag))))
+    else:
+        fin = z3.If(exact, mag == rmag, z3.Or(mag == rmag, mag == rmag + 1))
+    return z3.If(z3.fpIsNaN(d64), z3.fpIsNaN(y), z3.And(sgn_ok, z3.If(z3.fpIsInf(d64), mag == infmag, fin)))
+
+
 def f32_wire(t: pydsdl.FloatType, st: typing.Any) -> typing.Any:
     """float32/float64 fields: the wire value is the bit pattern.  (float64 storage 'double' for float64, 'float' for float32:
     saturation is the identity on finite values of the same format.)"""
@@ -200,7 +226,13 @@ def ser(v: typing.Any, s: Stream, ch: Chooser) -> None:
     """append the specified representation of value tree v; raises Invalid for values with no representation"""
     k, t = v[0], v[1]
     if k == "prim":
-        if isinstance(t, pydsdl.FloatType) and t.bit_length == 16:
+        if isinstance(v[2], tuple):                       # Python target: ('fbits', pattern) array element | ('pyfloat', Float64 term) scalar
+            if v[2][0] == "fbits":
+                s.put(v[2][1], t.bit_length)
+            else:
+                s.chunks.append(("pf", s.pos, t.bit_length, v[2][1], t))
+                s.pos += t.bit_length
+        elif isinstance(t, pydsdl.FloatType) and t.bit_length == 16:
             s.put_f16(t, v[2])
         elif isinstance(t, pydsdl.FloatType):
             s.put(f32_wire(t, v[2]), t.bit_length)
@@ -279,6 +311,8 @@ def stream_matches(s: Stream, buf: typing.Sequence[typing.Any]) -> typing.Any:
         field = z3.Extract(c[1] + c[2] - 1, c[1], whole)
         if c[0] == "x":
             conj.append(field == c[3])
+        elif c[0] == "pf":
+            conj.append(pyfloat_wire_ok(c[4], c[3], field))
         else:
             conj.append(f16_wire_ok(c[4], c[3], field))
     if s.pos % 8:
